@@ -506,3 +506,103 @@ def c20_g(ctx):
                         '`{}` does not exist in the installed library'.format(d), fn=f, node=node)
         else:
             ctx.ok(f, 'library attributes resolve', '', fn=f, node=f.node)
+
+
+@obligation('C20-h', 'T5 T7 T1', 'a round collects exactly n_sim_round simulations at the current '
+            'parameters before the likelihood is evaluated', floor=6,
+            necessary='rows written to the wrong slice, or a round processed early / late, '
+                      'estimate the likelihood from other simulations than those of the candidate')
+def c20_h(ctx):
+    mb = ctx.cls('elfi.methods.inference.parameter_inference:ModelBased')
+    up = ctx.own_method(mb, 'update')
+    ex = ctx.ex(up)
+    mergers = [f for f in ctx.reachable([up], depth=1, may=False) if f.cls is mb and
+               ctx.stores(f, 'self.simulated[_]')]
+    if not mergers:
+        raise AnchorMissing('no function reachable from ModelBased.update fills self.simulated')
+    mg = mergers[0]
+    exm = ctx.ex(mg)
+    st = [(s, t) for (s, t, k) in ctx.stores(mg, 'self.simulated[_]') if isinstance(s, ast.Assign)]
+    s, t = st[0]
+    sl = exm.term(t.slice)
+    N = pattern_term("self.state['n_sim_round']")
+    ok = sl == ('slice', N, ('binop', '+', N, pattern_term('self.batch_size')), ('const', None))
+    ctx.check(ok, mg, 'batch rows written after the rows collected so far',
+              'simulated[n : n + batch_size] = batch rows',
+              'the batch is written to {} instead of [n_sim_round : n_sim_round + batch_size]'
+              .format(show(sl)[:80]), fn=mg, node=s)
+    v = exm.term(s.value)
+    ok = match(v, pattern('batch_to_arr2d(batch, self.feature_names)')) is not None
+    ctx.check(ok, mg, 'rows are the features of the consumed batch',
+              'batch_to_arr2d(batch, feature_names)',
+              'the stored rows are {}'.format(show(v)[:80]), fn=mg, node=s)
+    inc = [x for (x, t2, k) in ctx.stores(mg, "self.state['n_sim_round']")]
+    ok = len(inc) == 1 and isinstance(inc[0], ast.AugAssign) and isinstance(inc[0].op, ast.Add) and \
+        exm.term(inc[0].value) == pattern_term('self.batch_size') and \
+        ctx.must_precede(mg, [s], inc[0])
+    ctx.check(ok, mg, 'row counter advances by batch_size after the rows are stored',
+              "state['n_sim_round'] += batch_size", 'the row counter is not advanced by batch_size '
+              'after the rows were written', fn=mg, node=inc[0] if inc else mg.node)
+    # round processed exactly when full
+    ps = ctx.calls(up, 'self._process_simulated()')
+    ok = len(ps) == 1 and ctx.only_guarded_by(
+        up, ps[0], ("self.state['n_sim_round'] == self.n_sim_round",), at_most=1) and \
+        bool(ctx.guard_groups(up, ps[0]))
+    mc = [c for c in ctx.calls(up) if mg in ctx.cg.resolve(up, c)]
+    ok = ok and bool(mc) and ctx.must_precede(up, mc, ps[0]) and \
+        cfg_of(up).must_pass([ctx.node(up, c) for c in mc])
+    ctx.check(ok, up, 'likelihood step exactly when the round is complete',
+              'merge; if n_sim_round == self.n_sim_round: _process_simulated()',
+              'the collected simulations are not processed exactly when n_sim_round simulations '
+              'were merged', fn=up, node=ps[0] if ps else up.node)
+    rd = [x for (x, t2, k) in ctx.stores(up, "self.state['round']")]
+    ir = ctx.calls(up, 'self._init_round()')
+    ok = len(rd) == 1 and bool(ps) and ctx.must_precede(up, ps, rd[0]) and bool(ir) and \
+        all(ctx.must_precede(up, rd, c) for c in ir) and \
+        all(any(pol and match(t2, pattern("self.state['round'] < self.objective['round']"))
+                is not None for (t2, pol, _) in ctx.guards(up, c)) for c in ir)
+    ctx.check(ok, up, 'next round prepared after the likelihood step',
+              "process; round += 1; if round < objective: _init_round()",
+              'the next round is not initialised after the round counter advanced (and only '
+              'while rounds remain)', fn=up, node=ir[0] if ir else up.node)
+    base_ir = ctx.own_method(mb, '_init_round')
+    z = [x for (x, t2, k) in ctx.stores(base_ir, "self.state['n_sim_round']")
+         if isinstance(x, ast.Assign) and ctx.term(base_ir, x.value) == ('const', 0)]
+    ctx.check(bool(z), base_ir, 'row counter restarts with a round', "state['n_sim_round'] = 0",
+              'a new round does not restart the row counter', fn=base_ir,
+              node=z[0] if z else base_ir.node)
+    # simulations of a round use the candidate, repeated batch_size times
+    pn = ctx.own_method(mb, 'prepare_new_batch')
+    exp_ = ctx.ex(pn)
+    rr = returns(pn)
+    ok = bool(rr) and match(
+        exp_.term(rr[-1].value),
+        pattern('arr2d_to_batch(np.repeat(np.atleast_2d(self.current_params), self.batch_size, '
+                'axis=0), self.parameter_names)')) is not None
+    ctx.check(ok, pn, 'every simulation of the round uses the candidate',
+              'repeat(current_params, batch_size) named by parameter_names',
+              'the batch parameters are not the candidate repeated batch_size times in '
+              'parameter_names order', fn=pn, node=rr[-1] if rr else pn.node)
+    bsl = ctx.cls(BSL)
+    cp = bsl.methods.get('current_params')
+    if cp is not None:
+        ctx.touch(cp)
+        rr = returns(cp)
+        ok = len(rr) == 1 and match(ctx.term(cp, rr[0].value),
+                                    pattern("self.state['params'][self.state['n_samples']]")) \
+            is not None
+        ctx.check(ok, cp, 'candidate = row n_samples of the chain',
+                  "state['params'][state['n_samples']]",
+                  'current_params is not the row that the proposal was written to', fn=cp,
+                  node=rr[0] if rr else cp.node)
+    so = ctx.own_method(mb, 'set_objective')
+    exso = ctx.ex(so)
+    st2 = [x for (x, t2, k) in ctx.stores(so, "self.objective['n_batches']")
+           if isinstance(x, ast.Assign)]
+    ok = bool(st2) and match(exso.term(st2[0].value),
+                             pattern('rounds * int(self.n_sim_round / self.batch_size)')) \
+        is not None
+    ctx.check(ok, so, 'batches = rounds x batches per round',
+              'rounds * int(n_sim_round / batch_size)',
+              'the batch objective is not rounds * (n_sim_round / batch_size)', fn=so,
+              node=st2[0] if st2 else so.node)
